@@ -229,10 +229,15 @@ class SMI(Machine):
     def model(self, c0, args):
         c = strip_generics(c0).replace("'_", "").replace("'n", "")
         c = re.sub(r'^(?:std|alloc)::(?:rc|sync|boxed)::(Rc|Arc|Box)::', r'\1::', c)
+        c = re.sub(r'^(?:std|core)::ops::(Range\w*)::', r'\1::', c)
         meth = c.split('::')[-1]
         a0 = args[0] if args else None
         d0 = deref(a0) if args else None
 
+        # --- a tuple-variant constructor called as a function: Option::<Url>::Some(x)
+        segs_ = strip_generics(c0).split('::')
+        if len(segs_) >= 2 and segs_[-2] in ENUMS and segs_[-1] in ENUMS[segs_[-2]] and not c0.startswith('<'):
+            return Adt(segs_[-2], ENUMS[segs_[-2]].index(segs_[-1]), list(args))
         # --- calling a closure / fn item through the Fn traits: <F as Fn<(A, B)>>::call(f, (a, b))
         if meth in ('call', 'call_mut', 'call_once') and re.search(r' as Fn(Mut|Once)?<', c0) and len(args) == 2:
             tup = deref(args[1])
@@ -380,7 +385,19 @@ class SMI(Machine):
             if meth == 'join':
                 r = native.call('url', __import__('urllib.parse').parse.urljoin(d0.s, self.cstr(args[1])))
                 return OK(Url(r)) if r is not None else ERR(Opaque('url::ParseError'))
-        if re.search(r'\bCow<', c0) and meth in ('into', 'from', 'deref', 'into_owned', 'as_ref', 'borrow', 'to_mut', 'clone'):
+        if re.search(r'\bCow(::)?<', c0) and meth in ('into', 'from', 'deref', 'into_owned', 'as_ref', 'borrow', 'to_mut', 'clone', 'to_string', 'fmt', 'is_borrowed', 'is_owned'):
+            if isinstance(d0, Adt) and d0.name == 'Cow':
+                # an explicitly built Cow::Borrowed / Cow::Owned
+                inner = d0.fields[0]
+                if meth == 'into_owned':
+                    return RString(as_str(inner))
+                if meth in ('deref', 'as_ref', 'borrow'):
+                    return as_str(inner)
+                if meth == 'to_string':
+                    return RString(as_str(inner))
+                if meth == 'clone':
+                    return clone_val(d0)
+                raise Unsupported('Cow enum method ' + c0)
             if meth == 'into_owned':
                 return RString(as_str(a0))
             return a0 if meth != 'clone' else clone_val(d0)
@@ -507,6 +524,10 @@ class SMI(Machine):
             if isinstance(a0, Ref) and isinstance(a0.get(), Ref):
                 return a0.get()     # &Rc<T> -> &T
             return a0
+        if meth == 'as_ref' and re.search(r'<(Rc|Arc|Box)<', c0) and isinstance(a0, Ref) and isinstance(a0.get(), Ref):
+            return a0.get()         # &Rc<T> -> &T
+        if meth == 'not' and isinstance(d0, bool):
+            return not d0
         if meth == 'as_str' and isinstance(d0, RString):
             return d0.s
         if meth == 'as_str' and isinstance(d0, Url):
@@ -564,7 +585,17 @@ class SMI(Machine):
             if meth == 'unwrap_or_default':
                 if some:
                     return v
-                if 'OsStr' in c0 or 'str' in c0:
+                mt = re.search(r'Option::<(.+)>::unwrap_or_default$', c0)
+                t = mt.group(1) if mt else ''
+                if t == 'bool':
+                    return False
+                if re.fullmatch(r'[iu](8|16|32|64|128|size)', t):
+                    return 0
+                if t in ('String', 'std::string::String'):
+                    return RString('')
+                if re.fullmatch(r'(std::vec::)?Vec<.*>', t):
+                    return []
+                if 'OsStr' in c0 or re.search(r'&(\'\w+ )?str\b', t):
                     return ''
                 raise Unsupported('unwrap_or_default ' + c0)
             if meth == 'is_some_and':
@@ -755,10 +786,18 @@ class SMI(Machine):
         if meth in ('values', 'keys') and isinstance(d0, PyMap):
             order = self.map_order(d0)
             return It(Ref(d0.entries[i], 1 if meth == 'values' else 0) for i in order)
+        if isinstance(d0, tuple) and len(d0) == 2 and d0[0] == 'item' and re.search(r'\biter::Empty(::)?<', d0[1]) and ' as Iterator>' in c0:
+            d0 = It(iter([]))       # the zero-sized std::iter::Empty passed as a constant
         if isinstance(d0, It):
             r = self.model_iter(d0, meth, args, c0)
             if r is not NotImplemented:
                 return r
+        if meth == 'add' and re.match(r'<String as Add<&str>>::add', c0):
+            return RString(self.rope_join([as_str(a0), as_str(args[1])]))
+        if c == 'Url::parse':
+            sv = self.cstr(a0)
+            r = native.url_parse(sv)
+            return OK(Url(r)) if r is not None else ERR(Opaque('url::ParseError'))
 
         # --- str
         if ('impl str' in c or c.startswith('str::') or c.startswith('<str') or c.startswith('core::str')) and args:
@@ -988,7 +1027,10 @@ class SMI(Machine):
                 order = self.map_order(d0)
                 return It(d0.entries[i][1 if meth == 'into_values' else 0] for i in order)
             if meth == 'entry':
-                return ('entry', d0, args[1])
+                # hash_map::Entry { Occupied, Vacant }; btree_map::Entry { Vacant, Occupied }
+                present = self.map_find(d0, args[1]) is not None
+                variant = (0 if present else 1) if d0.kind != 'btree' else (1 if present else 0)
+                return Adt('Entry', variant, [('entry', d0, args[1])])
             if meth == 'len':
                 return len(d0.entries)
             if meth == 'is_empty':
@@ -1005,6 +1047,30 @@ class SMI(Machine):
                     return NONE()
                 d0.order = None
                 return SOME(d0.entries.pop(i)[1])
+        if isinstance(d0, Adt) and d0.name == 'Entry' and meth in ('or_insert', 'or_insert_with', 'or_default', 'key'):
+            d0 = d0.fields[0]
+        if isinstance(d0, tuple) and d0 and d0[0] == 'entry' and re.search(r'(Vacant|Occupied)Entry', c0):
+            _, mp, key = d0
+            i = self.map_find(mp, key)
+            if meth == 'key':
+                return key
+            if 'VacantEntry' in c0 and meth in ('insert', 'insert_entry') and i is None:
+                mp.entries.append([key, args[1]])
+                mp.order = None
+                return Ref(mp.entries[-1], 1)
+            if 'OccupiedEntry' in c0 and i is not None:
+                if meth in ('get', 'get_mut', 'into_mut'):
+                    return Ref(mp.entries[i], 1)
+                if meth == 'insert':
+                    old_v = mp.entries[i][1]
+                    mp.entries[i][1] = args[1]
+                    return old_v
+                if meth == 'remove':
+                    mp.order = None
+                    return mp.entries.pop(i)[1]
+            raise Unsupported('map entry method ' + c0)
+        if isinstance(d0, tuple) and d0 and d0[0] == 'entry' and meth == 'key':
+            return d0[2]
         if isinstance(d0, tuple) and d0 and d0[0] == 'entry' and meth in ('or_insert', 'or_insert_with', 'or_default'):
             _, mp, key = d0
             i = self.map_find(mp, key)
@@ -1537,6 +1603,15 @@ class SMI(Machine):
                 if x is None:
                     return acc
                 acc = self.call_closure(args[2], [acc, x])
+        if meth == 'reduce':
+            acc = it.next()
+            if acc is None:
+                return NONE()
+            while True:
+                x = it.next()
+                if x is None:
+                    return SOME(acc)
+                acc = self.call_closure(args[1], [acc, x])
         if meth == 'count':
             k = 0
             while it.next() is not None:
